@@ -339,6 +339,12 @@ def all_jobs():
                        '_ZN4bloc7Context10MemorySlotC1EONS_6SymbolE', '_ZN4bloc7Context10MemorySlotC2EONS_6SymbolE', '_ZN4bloc7Context10MemorySlotD1Ev', '_ZN4bloc7Context10MemorySlotD2Ev', '_ZN4bloc6SymbolD1Ev', '_ZN4bloc6SymbolD2Ev'],
                   props=['C01', 'C02', 'C11'], pretty='bloc::Context::registerSymbol(name, type)', canaries=['normal', 'exceptional'],
                   structs=DEFAULT_STRUCTS + [STD_STRING, 'bloc::Context', 'bloc::Symbol', 'bloc::Context::MemorySlot', 'bloc::ParseError']))
+    for jid, mg, df, src, cls in (('collection_copy', '_ZN4bloc10CollectionC2ERKS0_', 'JOB_COLLECTION', 'blocc/collection.cpp', 'Collection'), ('tuple_copy', '_ZN4bloc5TupleC2ERKS0_', 'JOB_TUPLE', 'blocc/tuple.cpp', 'Tuple')):
+        J.append(dict(id=jid, src=src, contract='coll_copy.c', enforce=mg, roots=[mg], replace=[], cut=[V_CLONE], defines=[df],
+                      props=['C01', 'C14', 'C17'], pretty='bloc::%s::%s(const %s&)' % (cls, cls, cls), canaries=['normal'], unwind=5, bounded_inputs=True,
+                      unwind_why='tables / tuples of at most 2 elements (every element tag)',
+                      enums=['bloc::Type::TypeMajor'],
+                      structs=['bloc::Value', 'bloc::Type', STD_STRING, 'bloc::Collection', 'bloc::Tuple']))
     mg = '_ZN4bloc7Context5purgeEv'
     PURGE_CUT = [V_CLEAR, '_ZN4bloc14FunctorManagerC1ERNS_7ContextE', '_ZN4bloc14FunctorManagerD1Ev', '_ZN4bloc14FunctorManagerC2ERNS_7ContextE', '_ZN4bloc14FunctorManagerD2Ev', '_ZN4bloc7Context4Pool5purgeEv']
     J.append(dict(id='ctx_purge', src='blocc/context.cpp', contract='ctx_purge.c', enforce=mg, roots=[mg], replace=[], cut=PURGE_CUT,
